@@ -43,7 +43,7 @@ REGISTERED = [dict(node=1, dom="d1", ident="A"), dict(node=2, dom="d1", ident="B
               dict(node=7, dom="dnl", ident="A")]
 HONEST_PRE, HONEST_POST = REGISTERED[1], REGISTERED[2]
 
-NET_CONSTS = ["Part", "CatMode", "Sample", "Progs", "Faults", "QCap", "WCap"]
+NET_CONSTS = ["Part", "CatMode", "Sample", "Progs", "Faults", "QCap", "WCap", "SyncAccept"]
 HS_MONITORS = ["AttributedOnlyIfProved", "NoCrash", "HonestServed", "NoSpurious"]
 FR_MONITORS = ["Unmodified", "ExactlyOnce", "FIFO", "SendOrder", "OversizeRefused", "NoPanic", "Delivered", "FaultIsolated"]
 
@@ -74,7 +74,7 @@ def write_mc(wd, name, consts, invariants=(), trace=None, kind=None):
 
 
 def base_consts(**kw):
-    c = dict(Part="hs", CatMode="near", Sample=[], Progs=[()], Faults=["none"], QCap=1, WCap=1)
+    c = dict(Part="hs", CatMode="near", Sample=[], Progs=[()], Faults=["none"], QCap=1, WCap=1, SyncAccept=False)
     c.update(kw)
     return c
 
@@ -398,12 +398,17 @@ PROGS_THOROUGH = PROGS_QUICK + [
      (Rec(id=5, to=(3,)), Rec(id=6, to=(3,))),
      (Rec(id=7, to=(2, 3)),)),
 ]
-FAULTS = ["none", "down", "late", "stalled", "garble"]
+FAULTS = ["none", "down", "late", "stalled", "garble", "install"]
+STALL_KINDS = ["notls", "nohs", "halfhs", "halfframe"]
 TYPES_TOPIC = [1, 2]
 TYPES_PLAIN = [0, 3, 7, 255]
 
 
 VECTORS = {}
+
+
+def shape_key(o):
+    return json.dumps([o["fault"], o["victim"], o.get("kind", "-"), o["progs"]], sort_keys=True)
 
 
 def tlc_fr(wd, tr):
@@ -421,7 +426,7 @@ def tlc_fr(wd, tr):
             if t == "VEC":
                 VECTORS.update(o)
                 continue
-            k = json.dumps([o["fault"], o["victim"], o["progs"]], sort_keys=True)
+            k = shape_key(o)
             if t == "SCEN":
                 shapes[k] = o
             else:
@@ -429,6 +434,13 @@ def tlc_fr(wd, tr):
         res.append((consts, r))
     if not panics:
         raise vlib.CheckError("Net model: no scenario shape reaches the enqueue timeout (the flood scenarios would be vacuous)")
+    # falsifiability: an accept loop that completes a connection's TLS handshake itself before accepting the next one must get
+    # stuck behind an inbound peer that never sends its ClientHello
+    n2 = write_mc(wd, "MC_fr_syncaccept", base_consts(Part="fr", Progs=list(progs)[:1], Faults=["install"], QCap=1, WCap=1, SyncAccept=True),
+                  ["DeliveredAtQuiescence", "FaultIsolated"])
+    r2 = vlib.run_tlc(n2, n2 + ".cfg", ["Net.tla"], workdir=wd, timeout=600, deadlock=True, heap="8g")
+    if r2.violation != "deadlock":
+        raise vlib.CheckError("Net model: the what-if 'accept loop waits for the TLS handshake' is not refuted (vacuous isolation check?)")
     if not shapes:
         raise vlib.CheckError("Net model printed no scenario shapes")
     return res, [shapes[k] for k in sorted(shapes)], panics
@@ -457,7 +469,7 @@ class ScenarioGen:
 
     def add(self, **kw):
         s = dict(id=len(self.scenarios), n=4, dom=self.rng.choice(["d1", "e", "d2"]), progs=[], raw=[], slow_us=0, late_ms=0, timeout_ms=60000,
-                 grace_ms=120, flood=False, expect_drop=False, shape=None, layout=[])
+                 grace_ms=120, flood=False, expect_drop=False, shape=None, layout=[], stall=[])
         s.update(kw)
         self.scenarios.append(s)
         return s
@@ -489,6 +501,13 @@ class ScenarioGen:
             s["slow_us"] = 1500
         if fault == "rec":
             s["layout"] = [v]
+        if fault == "install":
+            for pr in progs:         # every other party sends to the party the stalling peer latched on to
+                if pr["node"] != v and not any(v in m["to"] for m in pr["msgs"]):
+                    pr["msgs"][0]["to"].append(v)
+            # the model's stalling inbound peer (it connects to the victim before anybody dials); delivery is demanded within 20 s
+            s["stall"] = [shape.get("kind", "notls")]
+            s["timeout_ms"] = 20000
         if fault == "garble":
             kinds = ["oversize", "oversizemax", "trunc", "shorttopic", "hdrstall", "eof"]
             self.rng.shuffle(kinds)
@@ -504,17 +523,18 @@ class ScenarioGen:
     def flood(self, shape, g):
         """the model reaches the enqueue timeout in this shape: goroutine g of node 1 keeps sending to the victim until the queue
         (1000) and the socket buffers are full and a call has waited for the timeout (the copy is given up, reported, nobody
-        panics); its next message goes to the victim AND a healthy peer: the healthy one must still get it. Meanwhile another
-        goroutine and the other parties keep talking to the healthy peers"""
+        panics). Meanwhile other goroutines and the other parties keep talking to the healthy peers"""
         v = shape["victim"]
         h = 5 - v
         size = 1 << 20 if shape["fault"] == "stalled" else 64
-        progs = [dict(node=1, flood=1100, msgs=[dict(ty=2, topic=True, size=size, to=[v], pause_us=0),
-                                                dict(ty=2, topic=True, size=300, to=[v, h], pause_us=0),
-                                                dict(ty=1, topic=True, size=17, to=[h, 4], pause_us=0)]),
-                 dict(node=1, flood=0, msgs=[self.msg(1, [h, 4], pause=900000) for _ in range(22)]),
-                 dict(node=4, flood=0, msgs=[self.msg(0, [h, 1], pause=700000) for _ in range(28)]),
-                 dict(node=h, flood=0, msgs=[self.msg(0, [1, 4], pause=1100000) for _ in range(18)])]
+        progs = [dict(node=1, flood=1100, msgs=[dict(ty=2, topic=True, size=size, to=[v], pause_us=0)]),
+                 # 3 s later (the queue is full by then, the flooding call is waiting) another goroutine sends one message to the
+                 # unresponsive AND a healthy peer: it waits for the timeout, gives the first copy up, the healthy peer gets its copy
+                 dict(node=1, flood=0, msgs=[dict(ty=2, topic=True, size=300, to=[v, h], pause_us=3000000),
+                                             dict(ty=1, topic=True, size=17, to=[h, 4], pause_us=0)]),
+                 dict(node=1, flood=0, msgs=[self.msg(1, [h, 4], pause=900000) for _ in range(15)]),
+                 dict(node=4, flood=0, msgs=[self.msg(0, [h, 1], pause=700000) for _ in range(19)]),
+                 dict(node=h, flood=0, msgs=[self.msg(0, [1, 4], pause=1100000) for _ in range(12)])]
         return self.add(fault=shape["fault"], victim=v, progs=progs, shape=shape, flood=True, expect_drop=True, timeout_ms=120000)
 
 
@@ -524,16 +544,24 @@ def fr_scenarios(shapes, panics, rng, tr):
     reps = 2 if tr == "quick" else 16
     flooded = set()
     for sh in shapes:
-        k = json.dumps([sh["fault"], sh["victim"], sh["progs"]], sort_keys=True)
+        k = shape_key(sh)
         if k in panics and (sh["fault"], sh["victim"] if big else 0) not in flooded:
             flooded.add((sh["fault"], sh["victim"] if big else 0))
             g.flood(sh, 0)
     for rep in range(reps):
         for sh in shapes:
+            if sh["fault"] == "install" and rep >= (6 if big else 1):
+                continue                 # every (victim, stall kind, program set) once in the quick tier, six times in the thorough one
             g.from_shape(sh, burst=3 if tr == "quick" else 6)
             if sh["fault"] == "none":
                 g.from_shape(sh, fault="slow", burst=4)
                 g.from_shape(sh, fault="rec", burst=3)
+    # every party in turn with all kinds of stalling inbound peers at once (and several silent TCP connections)
+    ins = [sh for sh in shapes if sh["fault"] == "install"]
+    for v in (1, 2, 3, 4) if ins else ():
+        for _ in range(1 if not big else 4):
+            s = g.from_shape(dict(rng.choice(ins), victim=v), burst=2 if not big else 4)
+            s["stall"] = ["notls"] * 3 + STALL_KINDS + ["notls"]
     if big:
         none = [sh for sh in shapes if sh["fault"] == "none"]
         g.from_shape(none[0], big=LIMIT)
@@ -548,7 +576,7 @@ def fr_scenarios(shapes, panics, rng, tr):
 
 
 def fr_job(material, scs, workers):
-    keys = ["id", "fault", "victim", "n", "dom", "progs", "raw", "slow_us", "late_ms", "timeout_ms", "grace_ms"]
+    keys = ["id", "fault", "victim", "n", "dom", "progs", "raw", "slow_us", "late_ms", "timeout_ms", "grace_ms", "stall"]
     return dict(material=material, workers=workers, vectors=VECTORS, scenarios=[{k: s[k] for k in keys} for s in scs])
 
 
@@ -596,7 +624,7 @@ def fr_lines(s, evs):
     for e in evs:
         k = e["e"]
         if k == "reset":
-            out.append(dict(e="reset", t=s["id"], fault=s["fault"], victim=s["victim"], dom=s["dom"], recv=recv, layout=s["layout"],
+            out.append(dict(e="reset", t=s["id"], fault=s["fault"], victim=s["victim"], stall=s.get("stall", []), dom=s["dom"], recv=recv, layout=s["layout"],
                             expect_drop=s["expect_drop"], flood=s["flood"]))
         elif k == "call":
             out.append(dict(e="call", g=e["g"], k=e["k"], **{"from": e["from"]}, to=e["to"], m=e["m"], raw=bool(e.get("raw", False))))
@@ -610,7 +638,7 @@ def fr_lines(s, evs):
             out.append(dict(e="crash", what=e["what"]))
         elif k == "end":
             out.append(dict(e="end", complete=bool(e.get("complete", False)), inconclusive=e.get("inconclusive", "")))
-        elif k in ("rawbad", "up", "note"):
+        elif k in ("rawbad", "up", "note", "stall"):
             out.append(dict(e=k))
     return out
 
@@ -637,7 +665,7 @@ def fr_validate(pid, scs, traces, wd, tag="fr"):
 
 
 def fr_signature(s, mon):
-    return "%s/%s%s" % (mon, s["fault"], "-flood" if s["flood"] else "")
+    return "%s/%s%s%s" % (mon, s["fault"], "-flood" if s["flood"] else "", ("-" + "+".join(sorted(set(s["stall"])))) if s.get("stall") else "")
 
 
 def fr_selftest(pid, scs, traces, wd):
@@ -709,7 +737,9 @@ def run_c17(pid, only=None):
     drv = vlib.build_harness()
     material = make_material(drv, wd)
     traces = fr_execute(drv, material, scs, wd)
+    log("net fr: scenarios executed on the real transport")
     viols, ends, nlines = fr_validate(pid, scs, traces, wd)
+    log("net fr: %d recorded events validated by TLC" % nlines)
     # load-sensitive classes (something not delivered by the deadline) and inconclusive set-ups are decided by a second run, alone
     retry = []
     for s in scs:
